@@ -11,7 +11,7 @@ import json, os, shutil, subprocess, sys, time
 V = "/verif"
 args = sys.argv[1:]
 name = args.pop(0)
-tier, seed, keep, props = "quick", None, False, []
+tier, seed, keep, props, runcmd = "quick", None, False, [], None
 while args:
     a = args.pop(0)
     if a == "--tier":
@@ -20,6 +20,8 @@ while args:
         seed = args.pop(0)
     elif a == "--keep":
         keep = True
+    elif a == "--run":
+        runcmd = args.pop(0)
     else:
         props.append(a)
 tag = f"{name.replace('/', '_').replace(':', '_')}_{'_'.join(props)}_{seed or 1}_{os.getpid()}"
@@ -61,10 +63,12 @@ try:
         env = dict(os.environ, VERIF_MAX_FAILURES=os.environ.get("VERIF_MAX_FAILURES", "60"))
         if seed:
             env["VERIF_SEED"] = seed
-        script = f"mount --bind {D}/repo /repo && mount --bind {D}/verif /verif && cd /verif && ./check {p} {tier}"
+        script = f"mount --bind {D}/repo /repo && mount --bind {D}/verif /verif && cd /verif && " + (runcmd if p == "RUN" else f"./check {p} {tier}")
         r = subprocess.run(["unshare", "-m", "bash", "-c", script], capture_output=True, text=True, env=env)
         viol = [l for l in r.stdout.splitlines() if l.startswith("VIOLATION")]
         res[p] = dict(exit=r.returncode, violation_lines=viol[:3], wall_s=round(time.time() - t0, 1), tier=tier)
+        if p == "RUN":
+            res[p]["tail"] = r.stdout.strip().splitlines()[-1:]
         try:
             cov = json.load(open(f"{D}/verif/evidence/{p}.json"))["coverage"]
             res[p]["others"] = len(cov.get("nonconformance_attributed_to_other_properties") or [])
